@@ -678,7 +678,7 @@ RS.explanation += ' A finished job keeps its final state: update_status ignores 
 # conversions and through workspace functions by summaries (parameter -> return, parameter -> sink).
 _CMP_OPS = {'Eq', 'Ne', 'Lt', 'Le', 'Gt', 'Ge', 'Cmp'}
 _WRAPPER_ADTS = re.compile(r'^core::(option::Option|result::Result|ops::control_flow::ControlFlow|task::poll::Poll|cmp::Reverse|'
-                           r'num::wrapping::Wrapping|num::saturating::Saturating|num::nonzero::NonZero)\b')
+                           r'num::wrapping::Wrapping|num::saturating::Saturating|num::nonzero::NonZero|ops::range::Range\w*)\b')
 # calls whose result is (a wrapper of / an iterator over) what went in
 _THROUGH = re.compile(
     r'^core::option::Option::<[^>]*>::\w+$|^core::result::Result::<T, E>::\w+$|'
@@ -686,7 +686,7 @@ _THROUGH = re.compile(
     r'TryFrom(<.*>)?>?::try_from$|TryInto(<.*>)?>?::try_into$|Clone>?::clone$|ToOwned>?::to_owned$|Deref>?::deref$|DerefMut>?::deref_mut$|'
     r'Borrow(Mut)?(<.*>)?>?::borrow(_mut)?$|AsRef(<.*>)?>?::as_ref$|^core::num::|^core::cmp::(min|max)$|Ord>?::(min|max|clamp)$|'
     r'^core::ops::arith::\w+::\w+$|core::ops::arith::\w+(<.*>)?>::\w+$|^core::bool::<impl bool>::then(_some)?$|^core::convert::identity$|'
-    r'^core::mem::(replace|take)$|^core::iter::(once|repeat|successors|from_fn)')
+    r'^core::mem::(replace|take)$|^core::iter::(once|repeat|successors|from_fn)|^core::ops::range::Range\w*::<Idx>::new$')
 _ITER = re.compile(r'(^|[ :])(core::iter::traits::(iterator::Iterator|double_ended::DoubleEndedIterator|collect::IntoIterator))>?::\w+$')
 # adapters whose result carries only what the closure returns (the receiver's items are consumed by the closure)
 _MAPPERS = re.compile(r'::(map|and_then|map_or|map_or_else|filter_map|find_map|flat_map|then|fold|try_fold|scan|map_while|is_some_and|is_none_or)$')
@@ -934,9 +934,10 @@ class _CountFlow:
             for x, kind, root, loc in sub:
                 if x[0] == 'P':
                     if x[1] - 1 < len(al):
+                        # the count takes the role of a job index HERE, where it is passed as one
                         for y in al[x[1] - 1]:
                             if y[2] == _VAL:
-                                hits[(y, kind, root)] = loc
+                                hits[(y, kind, body.root)] = body.loc(t)
                 # labels that are not placeholders were reported when the callee itself was analysed
             return out(frozenset(new)) if want_ret else False
         return False
@@ -983,7 +984,7 @@ def r9(cx):
     cx.floor(n_key, 6, 'functions passing a key to an accessor of the job slab')
     in_job = [(fn, what, loc) for (fn, what), loc in sorted(eng.sources.items()) if fn.startswith('yash_env::job::') or fn.startswith('<yash_env::job::')]
     cx.floor(len(in_job), 2, 'counting calls (len / count / position / enumerate) in yash_env::job recognised as sources')
-    cx.floor(len(eng.sources), 100, 'counting calls in the workspace recognised as sources')
+    cx.floor(len(eng.sources), 40, 'counting calls in the workspace recognised as sources')
     for fn, what, loc in in_job:
         cx.site('%s: %s() at %s yields a count, not a job index' % (fn, what, loc))
     # positive control: the engine follows the real selection code - the key of the slab iterator's pairs, through the
